@@ -68,6 +68,9 @@ type Store struct {
 	S     *Sched
 	Rec   *Recorder
 	Keys  *KeyMap
+	// Below, when set, is the engine-side fault layer under the repository's own wrappers: injected faults are armed there
+	// and the call goes through (see Faulty), instead of being answered here.
+	Below *Faulty
 	// NoTTL makes SupportTTL answer false (expiry then runs inside compaction).
 	NoTTL bool
 	// Partitions, when set, replaces the engine's answer to GetPartitions.
@@ -269,6 +272,14 @@ func (it *iterW) Next(ctx context.Context) error {
 		// an injected transient iterator error (a timeout, a region error): the element is not consumed
 		if err := f(it.p, it.id, it.n); err != nil {
 			it.st.Rec.Log(Event{"e": "IterFault", "p": it.p, "it": it.id, "n": it.n})
+			if it.st.Below == nil {
+				return err
+			}
+			it.st.Rec.Mu.Lock()
+			it.st.Below.ArmNext(err)
+			err = it.inner.Next(ctx)
+			it.st.Below.Disarm()
+			it.st.Rec.Mu.Unlock()
 			return err
 		}
 	}
@@ -369,19 +380,27 @@ func (s *Store) del(ctx context.Context, key []byte, it storage.Iter) error {
 	}
 	s.Rec.Mu.Lock()
 	var err error
-	switch fault {
-	case "err":
-		err = ErrInjected
-		e["fault"] = "err"
-	case "cas":
-		err = storage.ErrCASFailed
-		e["fault"] = "cas"
-	default:
+	through := func() error {
 		if it != nil {
-			err = s.Inner.DelCurrent(ctx, it.(*iterW).inner)
-		} else {
-			err = s.Inner.Del(ctx, key)
+			return s.Inner.DelCurrent(ctx, it.(*iterW).inner)
 		}
+		return s.Inner.Del(ctx, key)
+	}
+	switch fault {
+	case "err", "cas":
+		err = ErrInjected
+		if fault == "cas" {
+			err = storage.ErrCASFailed
+		}
+		e["fault"] = fault
+		if s.Below != nil {
+			// the engine fails: what arrives here went through the wrappers in between
+			s.Below.ArmDel(err)
+			err = through()
+			s.Below.Disarm()
+		}
+	default:
+		err = through()
 	}
 	e["res"] = errClass(err)
 	e["post"] = s.readBack(key)
@@ -478,7 +497,23 @@ func (b *batchW) Commit(ctx context.Context) error {
 		switch fault.Kind {
 		case "err":
 			err = ErrInjected
+			if s.Below != nil {
+				s.Below.ArmCommit(ErrInjected, false)
+				err = run()
+				s.Below.Disarm()
+				applied = s.Below.LastApplied()
+			}
 		case "unk_applied":
+			if s.Below != nil {
+				s.Below.ArmCommit(storage.NewErrUncertainResult(fmt.Errorf("injected: answer lost")), true)
+				err = run()
+				s.Below.Disarm()
+				applied = s.Below.LastApplied()
+				if !applied && !errors.Is(err, storage.ErrUncertainResult) {
+					ev["fault"] = ""
+				}
+				break
+			}
 			ierr := run()
 			applied = ierr == nil
 			if ierr == nil {
@@ -490,6 +525,12 @@ func (b *batchW) Commit(ctx context.Context) error {
 			}
 		case "unk_notapplied":
 			err = storage.NewErrUncertainResult(fmt.Errorf("injected: request lost"))
+			if s.Below != nil {
+				s.Below.ArmCommit(err, false)
+				err = run()
+				s.Below.Disarm()
+				applied = s.Below.LastApplied()
+			}
 		}
 	}
 	post := make([]interface{}, len(b.ks))
